@@ -11,6 +11,7 @@ Line protocol of C12.
 * `cmr ctx mode rootGiven | poolIds | as | bs | sel | idxs | lists…` → data / vols / items of a `CMRxReconDataset`
   (`mode` 0: `sel` is the directory listing in OS order, 1: `filenames_filter`, 2: `filenames_lists`)
 * `locate sizes | idx`                  → `ok d j`
+* `locatex objSizes | pattern | idx ty` → `ok d obj j` (`ConcatDataset` with repeated objects, `ty` = index type code, not read)
 * `bisect xs | x`                       → `ok n` (`bisect.bisect_right`, any list)
 * `sliceidx F | n`                      → `ok start stop step | len(range) | list(range)` or `err ValueError`
 * `dedup xs`                            → `ok list(dict.fromkeys(xs))`
@@ -218,6 +219,11 @@ def step (op : String) (gs : List (List Int)) : String :=
     if sizes.any (· < 0) then "err BadOp" else
     match concatGet (nats sizes) idx with
     | .ok (d, j) => okG [[(d : Int), (j : Int)]]
+    | .error e => "err " ++ errName e
+  | "locatex", [objSizes, pattern, [idx, _ty]] =>
+    if objSizes.any (· < 0) ∨ pattern.any (fun p => p < 0 ∨ (objSizes.length : Int) ≤ p) then "err BadOp" else
+    match concatGetRep (nats objSizes) (nats pattern) idx with
+    | .ok (d, o, j) => okG [[(d : Int), (o : Int), (j : Int)]]
     | .error e => "err " ++ errName e
   | "fake", [[coils, seed, given], shape] =>
     if coils < 1 ∨ seed < 0 ∨ given < 0 ∨ shape.any (· < 1) then "err BadOp" else
